@@ -179,13 +179,26 @@ def local_env(f):
         return c
     env = {}
     assigned = collections.Counter()
+    written = set()
     for e in f.events():
-        if e.k == 'write' and re.fullmatch(r'local:\w+', e.get('path') or ''):
-            assigned[e['path']] += 1
+        if e.k == 'write' and not e.get('init'):
+            written.add(e.get('path') or '')
+            if re.fullmatch(r'local:\w+', e.get('path') or ''):
+                assigned[e['path']] += 1
+        if e.k == 'call' and 'compare_exchange' in (e.get('callee') or '') and e.get('args'):
+            written.add(e['args'][0].get('path') or '')       # the `expected` out-argument
+    written.discard('')
+
+    def depends_on_written(ini):
+        # a pointer/value copied from a location that is reassigned later is NOT an alias of that location
+        for w in written:
+            if ini == w or ini.startswith(w + '->') or ini.startswith(w + '.') or ini.startswith('*(' + w + ')') or ini == '&(' + w + ')':
+                return True
+        return False
     for e in f.events():
         if e.k == 'decl' and e.get('init') and assigned['local:' + e['var']] == 0 and (e.get('ref') or e.get('ptr') or e['init'].startswith('call(')):
             ini = e['init']
-            if ini.startswith(ROOTS) or ini.startswith('*(') or ini.startswith('&('):
+            if (ini.startswith(ROOTS) or ini.startswith('*(') or ini.startswith('&(')) and (e.get('ref') or not depends_on_written(ini)):
                 env['local:' + e['var']] = ini
     for _ in range(3):
         for k in list(env):
@@ -524,25 +537,38 @@ def var_def(f, var):
     return None
 
 
-def value_origin(f, ev_or_path, depth=4):
-    """follow a value back through single-definition locals; returns the producing event or None"""
-    if depth == 0:
+def value_origin(f, ev_or_path, depth=6):
+    """follow a value back through single-definition locals, copies/moves and std::move/forward;
+    returns the producing event (call / construct / new / read of a non-local / decl) or None"""
+    if depth == 0 or ev_or_path is None:
         return None
     if isinstance(ev_or_path, str):
-        p = ev_or_path
-        m = re.fullmatch(r'local:(\w+)(?:#\d+)?', p)
+        m = re.fullmatch(r'local:(\w+)(?:#\d+)?', ev_or_path)
         if not m:
             return None
         d = var_def(f, m.group(1))
         if d is None:
             return None
         if d.get('init_ev') is not None and f.ev(d['init_ev']) is not None:
-            e = f.ev(d['init_ev'])
-            if e.k in ('call', 'construct', 'new', 'select'):
-                return e
-            if e.k in ('use', 'read'):
-                return value_origin(f, e.get('path'), depth - 1) or e
+            return value_origin(f, f.ev(d['init_ev']), depth - 1)
         if d.get('init') and re.fullmatch(r'local:\w+', d['init']):
             return value_origin(f, d['init'], depth - 1)
         return d
-    return ev_or_path
+    e = ev_or_path
+    if e.k == 'use':
+        return value_origin(f, e.get('path'), depth - 1) or e
+    if e.k == 'read':
+        if re.fullmatch(r'local:\w+', e.get('path') or ''):
+            return value_origin(f, e.get('path'), depth - 1) or e
+        return e
+    if e.k == 'construct' and e.get('copy_or_move') and e.get('args'):
+        a = e['args'][0]
+        if a.get('ev') is not None and f.ev(a['ev']) is not None:
+            return value_origin(f, f.ev(a['ev']), depth - 1)
+        return value_origin(f, a.get('path'), depth - 1) or e
+    if e.k == 'call' and norm(e.get('callee')) in ('std::move', 'std::forward', 'std::exchange') and e.get('args'):
+        a = e['args'][0]
+        if a.get('ev') is not None and f.ev(a['ev']) is not None:
+            return value_origin(f, f.ev(a['ev']), depth - 1)
+        return value_origin(f, a.get('path'), depth - 1) or e
+    return e
